@@ -19,7 +19,7 @@ func Verif_C02_opensent_reaction() {
 	if !info.bounded {
 		return
 	}
-	conn := newSymConn("c", mkFrame(openMessageType, body), 0)
+	conn := newSymConn("c", mkFrame(verifMsgOpen, body), 0)
 	pl := newMonPlugin()
 	pluginRejects := verifChoose("plugin-rejects", 2) == 1
 	pdata := verifBuf("pdata", 0, 4)
@@ -32,7 +32,7 @@ func Verif_C02_opensent_reaction() {
 	verifQuiesce()
 	// verdict of the pure functions on the same bytes
 	var want *Notification
-	m, derr := messageFromBytes(body, openMessageType)
+	m, derr := messageFromBytes(body, verifMsgOpen)
 	if derr != nil {
 		want, _ = c02Notif(derr)
 	} else if verr := m.(*openMessage).validate(cfg.localID, cfg.localAS, cfg.remoteAS); verr != nil {
@@ -101,10 +101,10 @@ func Verif_C02_open_then_pipelined_message() {
 		16, 2, 6, CAP_FOUR_OCTET_AS, 4, byte(as >> 24), byte(as >> 16), byte(as >> 8), byte(as),
 		2, 6, code, 4, val[0], val[1], val[2], val[3]}
 	conn := newSymConn("c", nil, 0)
-	conn.addFrame(openMessageType, body)
-	next := uint8(updateMessageType)
+	conn.addFrame(verifMsgOpen, body)
+	next := uint8(verifMsgUpdate)
 	if verifChoose("next-is-notification", 2) == 1 {
-		next = notificationMessageType
+		next = verifMsgNotification
 	}
 	conn.addFrame(next, verifBuf("nextbody", 2, 32))
 	pl := newMonPlugin()
@@ -147,7 +147,7 @@ func Verif_C02_second_connection_starts_clean() {
 	}
 	estab := e.pl.nEstab
 	verifDelayBound(2)
-	c1.chunks = append(c1.chunks, mkFrame(notificationMessageType, []byte{NOTIF_CODE_CEASE, 0}), mkFrame(openMessageType, mkOpenBody(e.cfg.remoteAS, 90, id2)))
+	c1.chunks = append(c1.chunks, mkFrame(verifMsgNotification, []byte{NOTIF_CODE_CEASE, 0}), mkFrame(verifMsgOpen, mkOpenBody(e.cfg.remoteAS, 90, id2)))
 	c1.endMode = 1
 	c1.deliver(len(c1.chunks), true)
 	verifQuiesce()
@@ -168,12 +168,12 @@ func Verif_C02_second_connection_starts_clean() {
 	}
 	verifAssert("only-our-open-before-the-remote-speaks", len(c2.writes) == 1 && c2.wroteOpenFirst() && !c2.closed)
 	verifAssert("no-onopenmessage-before-the-remote-speaks", e.pl.nOpen == 1)
-	c2.send(openMessageType, mkOpenBody(e.cfg.remoteAS, 90, id3))
+	c2.send(verifMsgOpen, mkOpenBody(e.cfg.remoteAS, 90, id3))
 	verifQuiesce()
 	verifAssert("second-connection-open-accepted", e.pl.nOpen == 2 && len(c2.writes) == 2 && isKeepalive(c2.writes[1]) && !c2.closed)
 	a4 := e.pl.gotRID.As4()
 	verifAssert("second-connection-identifier-is-the-one-sent-on-it", uint32(a4[0])<<24|uint32(a4[1])<<16|uint32(a4[2])<<8|uint32(a4[3]) == id3)
-	c2.send(keepAliveMessageType, nil)
+	c2.send(verifMsgKeepalive, nil)
 	verifQuiesce()
 	verifAssert("second-connection-establishes", e.pl.nEstab == estab+1 && e.p.fsmState[out] == establishedState)
 	verifCover("second-connection-clean")
